@@ -5,20 +5,26 @@ open TfelVerif.C13 TfelVerif.C13.Driver TfelVerif.C14
 
 namespace TfelVerif.C14.Driver
 
-/-- the variables of a tree, in order of first appearance -/
-def vars : Expr Float → List String
+/-- the variables registered while the formula is read (`TVariable` constructor): every identifier
+    parsed as a variable, even if the analysis prunes it afterwards (`x**0` is the number one) -/
+partial def rawVars : T → List String
   | .var n => [n]
-  | .num _ _ => [] | .param _ => []
-  | .neg a => vars a | .ipow _ a => vars a | .fn1 _ _ a => vars a | .lnot a => vars a
-  | .bin _ a b => vars a ++ vars b | .fn2 _ a b => vars a ++ vars b
-  | .cmp _ a b => vars a ++ vars b | .land a b => vars a ++ vars b | .lor a b => vars a ++ vars b
-  | .cond c a b => vars c ++ vars a ++ vars b
-  | .expd a b d => vars a ++ vars b ++ vars d
+  | .group items => items.flatMap (fun it => match it with | .opnd a => rawVars a | .oper _ => [])
+  | .neg a => rawVars a | .fn1 _ a => rawVars a | .lnot a => rawVars a
+  | .bin _ a b => rawVars a ++ rawVars b | .fn2 _ a b => rawVars a ++ rawVars b
+  | .cmp _ a b => rawVars a ++ rawVars b | .land a b => rawVars a ++ rawVars b | .lor a b => rawVars a ++ rawVars b
+  | .cond c a b => rawVars c ++ rawVars a ++ rawVars b
+  | .extop _ _ args => args.flatMap rawVars
+  | _ => []
 
 def derive (x f : String) : Except Err (Expr Float) := do
-  let e ← parse f
-  -- `differentiate(name)`: the variable must exist (getVariablePosition)
-  if !(vars e).contains x then throw .noVariable
+  let toks ← tokenize f
+  let c : Ctx := { toks := toks, fixed := false, vars := [], mgr := false }
+  let (g, _) ← treatGroup c 0 toks.size ""
+  let r ← reduceT g
+  let e ← analyseT r
+  -- `differentiate(name)`: the variable must have been registered (getVariablePosition)
+  if !(rawVars g).contains x then throw .noVariable
   diff floatOps x e
 
 def answer (line : String) : String :=
